@@ -7,7 +7,8 @@ EXPLANATION = (
     'Decides the structural clauses listed; does not decide the behaviour as a whole. SPAN: assemble() snapshots the '
     'location counter immediately before parse_instruction (nothing in between can move it) and calls '
     'list_output(start_address, address) right after it. R-PURE: the 59 listing formatters and everything they reach only '
-    'read the image. DUMP: the data-section dump walks low..high, selects exactly DL_DATA bytes and prints the image byte. '
+    'read the image. DUMP: the data-section dump walks low..high, selects exactly DL_DATA bytes, prints the image byte, and ends the current line at every address it does not list. '
+    'DATA-TAG: every data directive stores its bytes with the DL_DATA marker (never through add_bin*), so each emitted byte is shown by list_output or by the dump. '
     'R-UNIT: printed symbol values / `$` are the byte counter divided once by bytes_per_address. Not decided: the text '
     'of 68 formatters against the output file.')
 
@@ -15,5 +16,5 @@ EXPLANATION = (
 def run(tier, t0):
     prog = common.program()
     cg = common.callgraph()
-    results = [listing.span(prog, cg), listing.dump(prog), state.pure(prog, cg), passes.unit(prog)]
+    results = [listing.span(prog, cg), listing.dump(prog), listing.data_tag(prog), state.pure(prog, cg), passes.unit(prog)]
     return report.finish('C18', tier, results, EXPLANATION, [], common.TRUSTED, t0)
